@@ -210,6 +210,15 @@ pub fn run(ctx: &Ctx, model: &mut Model, rep: &mut Report) {
     rep.rule = "libraries with arbitrary block-reference graphs (trees, DAGs with sharing, cycles, self-loops, dangling targets, sub-directories), depth 0..6; chains and self-loops up to depth 255; correspondence: model squash tree + CLI text vs real `Graph::squash` tree + `iwe squash` text; oracle: termination within a deadline, no panic, word/reference multiset of the squashed tree = independent expansion of the source texts; non-trivial = some reference expanded; distinct by text".to_string();
     if let Some(path) = &ctx.replay {
         let v: serde_json::Value = serde_json::from_str(&std::fs::read_to_string(path).unwrap()).unwrap();
+        if let Some(r) = crate::cli::replay(&v) {
+            rep.evaluations += 1;
+            if let Some(w) = r {
+                let mut f = v.clone();
+                f["what"] = json!(w);
+                rep.fail(f);
+            }
+            return;
+        }
         let lib: Vec<(String, String)> = v["library"].as_array().unwrap().iter().map(|p| (p[0].as_str().unwrap().to_string(), p[1].as_str().unwrap().to_string())).collect();
         rep.evaluations += 1;
         if let Some(what) = check(&lib, v["key"].as_str().unwrap(), v["depth"].as_u64().unwrap() as u8) {
@@ -241,6 +250,15 @@ pub fn run(ctx: &Ctx, model: &mut Model, rep: &mut Report) {
         if let Some(what) = check(&lib, &key, depth) {
             rep.fail(json!({"kind": "squash", "library": lib, "key": key, "depth": depth, "what": what}));
             continue;
+        }
+        // the command-line binary: `iwe squash -k <key> --depth <d>` prints the squashed note of the graph
+        if i % 8 == 3 && depth <= 6 {
+            rep.count("cli_cases");
+            rep.evaluations += 1;
+            let case = crate::cli::CliCase { lib: &lib, ext: if i % 16 == 3 { "" } else { ".md" }, sub: if i % 3 == 0 { "" } else { "lib" }, squash: Some((&key, depth)), paths_depth: 3, tag: &format!("c17-{}", i) };
+            if let Some(w) = crate::cli::check(&case) {
+                rep.fail(case.failure(w));
+            }
         }
         // correspondence
         let h = History { ext: String::new(), import: lib.clone(), steps: vec![] };
